@@ -1,4 +1,4 @@
-HOOK_COMMITS = ["e8d87c5", "afbd338", "0cc5209", "6c680dd", "e0f143d"]
+HOOK_COMMITS = ["e8d87c5", "afbd338", "0cc5209", "6c680dd", "e0f143d", "346dd2e"]
 NOTES = ("Every check re-checks the Coq theorems of coq/Props/<id>.v (full .vo build of their dependencies), rebuilds the "
          "harness from /repo's working tree with -tags verif, and runs the correspondence families of that property. "
          "See DESIGN.md for the trusted base and known_findings.json for recorded defects.")
@@ -46,11 +46,18 @@ CLAIMED = {
           "independent run of the generated code with its own error listeners. Proved are the hand-written parts on the "
           "way: the indentation-aware lexer wrapper delivers a complete stream for every base stream unless an "
           "indentation mixes tabs and blanks (its only panic, recovered into an error), returns EOF at once on empty "
-          "input, seeds over [0-9a-z] are accepted, a runner exists exactly when there is a node and starts at the first.",
+          "input, seeds over [0-9a-z] are accepted, a runner exists exactly when there is a node and starts at the first. "
+          "The statement rules of the generated parser together with the listener are modelled as a recursive descent over "
+          "the lexer's tokens (Syntax/StmtParser.v, token numbering and operator maps regenerated from the Go source on every "
+          "run by tools/gen_tokentable.py): proved that lexer errors refuse the input, that acceptance means nodes followed by "
+          "the end of input, and that every well-formed written statement sequence is accepted and read as the dialogue it "
+          "stands for (C05_written_statements_are_accepted, for all sufficient fuel); family stmtparse compares this model "
+          "with tree.FromReader on the real lexer's tokens for printed, mutated, cut and soup inputs (accept/refuse and the "
+          "dialogue built), with an independent expectation for printed programs.",
   "design_ref": "DESIGN.md section 5, C05",
   "note": "Not covered by any theorem: panics and non-termination inside ANTLR's generated code and runtime, and the "
           "listener on trees produced by error recovery (the repaired FromReader does not walk such trees).",
-  "technique": "Coq proofs for the hand-written loader parts + differential fuzzing against an independent ANTLR syntax check",
+  "technique": "Coq proofs for the hand-written loader parts and for a statement-parser model (token table regenerated from source, parse(print)=id theorem) + differential fuzzing against an independent ANTLR syntax check",
  },
  "C08": {
   "text": "Partial. Proved for the hand-written indentation wrapper (through the NextToken protocol theorem of C20): the "
@@ -58,14 +65,22 @@ CLAIMED = {
           "monotone re-labelling: 1-8 blanks or tabs per level) and blank / whitespace-only / comment-only lines at any "
           "indentation are transparent. Proved for the expression rule (parser model over the precedence table "
           "regenerated from the Go source on every run): redundant parentheses never change the parsed expression "
-          "(C08_redundant_parentheses_never_matter, minimal and maximal parenthesisation agree). Not proved: that the "
+          "(C08_redundant_parentheses_never_matter, minimal and maximal parenthesisation agree). Proved for the statement rules "
+          "(parser + listener model Syntax/StmtParser.v over the token table regenerated from the Go source): every written "
+          "statement sequence - lines, option groups, if/elseif/else, set, declare, call, jump, generic commands, with an "
+          "INDENT ... DEDENT block around any run of statements at any depth - is read back as the dialogue it stands for, so "
+          "whether and how far a body is indented does not matter to the parser "
+          "(C08_written_statements_are_read_back_whatever_is_indented, C08_an_indented_block_is_the_statements_in_it); "
+          "family stmtparse compares the model with tree.FromReader on the real lexer's tokens. Not proved: that the "
           "generated lexer/parser treat CRLF, operator spellings, blanks inside commands and reader splits alike - every "
           "generated program is rendered under 11 layouts and all parsed dialogues and traces are compared; family "
           "exprparse writes expressions with random spellings and redundant parentheses. Known finding D10.",
   "design_ref": "DESIGN.md section 5, C08",
-  "note": "Axiom-free theorems (closed under the global context). The staged parse(print(l, d)) = d round trip over a "
-          "transcribed statement grammar was not built; the implementation's own parser is used as the oracle for it.",
-  "technique": "Coq proof on the indentation wrapper model and on the expression-parser model (table regenerated from source) + metamorphic correspondence check across layouts",
+  "note": "The wrapper and parenthesis theorems are axiom-free (closed under the global context); the statement-level "
+          "theorems mention the number type and inherit the four standard-library axioms of Flocq's real-number layer. The "
+          "statement-level round trip is at token level: the lexer (text -> tokens) is not modelled, and the fuel bound of "
+          "the model's parse_node is a premise of the node-level theorem (C08_written_node_is_read_back_partial).",
+  "technique": "Coq proof on the indentation wrapper model, on the expression-parser model and on the statement-parser model (tables regenerated from source) + metamorphic correspondence check across layouts",
  },
  "C16": {
   "text": "Theorems over a universe of Go types described by what reflect reports (kind, identity of a defined type, implements error, channel "
